@@ -61,9 +61,9 @@ func init() {
 		ID: "C05",
 		Explanation: "Decides structural necessary conditions of 'compressed tables decode to the same actions': GUARD(usedBase): every freshly chosen displacement base in allocator.place reaches a return only through the not-used outcome of usedBase.Get(delta+base), and the base is recorded (two rows with one base decode each other's cells). " +
 			"GUARD(dedupe): a cached base is reused only when the bounds check held and value+check column were compared. CODEC(optimize): every value stored into a row is error(-1), shift(-2-state), a rule index or the unfilled sentinel; under defaultReduce the sentinel is -K-len(Action), K>=2 (distinct from every shift code, the nonassoc error and rule indices), and only cells equal to the sentinel receive the default reduction. " +
-			"MUSTPASS(compile-order): populateTables < resolveWithLookahead < reportConflicts < minimize < Optimize. GUARD(optimize-la): Optimize is not run on tables holding deep-lookahead pointers. LOOPBOUND: no element-by-element scan in lalr/ or util/container (the bit sets the row packer searches) stops short of its slice. OPTIONMAP: each option key of the grammar file sets its own Options field (defaultReduce and optimizeTables are switched on only by their own keys). " +
+			"MUSTPASS(compile-order): populateTables < resolveWithLookahead < reportConflicts < minimize < Optimize. GUARD(optimize-la): Optimize is not run on tables holding deep-lookahead pointers. RESET(histogram): a counter slice reused across states (Optimize's reuse, pickDefault's parameter) is zeroed inside the iteration before it is bumped and read back. LOOPBOUND: no element-by-element scan in lalr/ or util/container (the bit sets the row packer searches) stops short of its slice. OPTIONMAP: each option key of the grammar file sets its own Options field (defaultReduce and optimizeTables are switched on only by their own keys). " +
 			"Not decided: full functional equality of the two encodings, pickDefault's choice.",
-		Rules: []string{"GUARD(usedBase)", "GUARD(dedupe)", "CODEC(optimize)", "MUSTPASS(compile-order)", "GUARD(optimize-la)", "OPTIONMAP", "LOOPBOUND"},
+		Rules: []string{"GUARD(usedBase)", "GUARD(dedupe)", "CODEC(optimize)", "MUSTPASS(compile-order)", "GUARD(optimize-la)", "OPTIONMAP", "LOOPBOUND", "RESET(histogram)"},
 		Run: func(c *Ctx) {
 			ruleUSEDBASE(c)
 			ruleDEDUPE(c)
@@ -71,6 +71,7 @@ func init() {
 			ruleCOMPILEORDER(c)
 			ruleOPTIONMAP(c)
 			ruleLOOPBOUND(c, "util/container", "lalr")
+			ruleRESET(c, "lalr")
 		},
 	})
 	register(&Property{
@@ -242,9 +243,9 @@ func init() {
 	register(&Property{
 		ID: "C01",
 		Explanation: "Decides structural necessary conditions of 'generated parsers accept exactly the language' across table writers (lalr/) and readers (the five committed generated parsers and js's hand-written parse loop): CODEC(parser): every read of the packed table is guarded by 0 <= pos < tmTableLen, -2-action is used as a state only for action < -1, rule tables are indexed only with action >= 0. SIBLING(gotoState): the generated default-encoding gotoState has the same comparisons, index arithmetic and returns as lalr.(*DefaultEnc).gotoState. ENTRY: the i-th exported Parse* starts in state i with a final state that is not an entry state. " +
-			"GUARD(markerfree): RuleLen counts only non-marker symbols. CODEC(optimize), GUARD(usedBase), GUARD(dedupe), GUARD(entry), FIELDCOV(minimize), MUSTPASS(compile-order), MUSTPASS(nonassoc-rewrite): the writers keep the encodings consistent. " +
+			"GUARD(markerfree): RuleLen counts only non-marker symbols. CODEC(optimize), GUARD(usedBase), GUARD(dedupe), GUARD(entry), FIELDCOV(minimize), MUSTPASS(compile-order), MUSTPASS(nonassoc-rewrite): the writers keep the encodings consistent. FRESH(lookahead): every read of p.next in each parse() is dominated by a definition made in the same call (no stale lookahead on a reused Parser). RESET(histogram): reused counter slices of Optimize/pickDefault are zeroed per state. PERITEM(flag): boolean fields of per-item records (Input.NoEoi, ...) are not carried around the loop that builds them. " +
 			"Not decided: correctness of the LR(0)/LALR construction and of the shift/reduce loop as algorithms; the error-location clause.",
-		Rules: []string{"CODEC(parser)", "SIBLING(gotoState)", "DTX(lr0-shift)", "ENTRY", "GUARD(markerfree)", "CODEC(optimize)", "GUARD(usedBase)", "GUARD(dedupe)", "GUARD(entry)", "FIELDCOV(minimize)", "MUSTPASS(compile-order)", "MUSTPASS(nonassoc-rewrite)"},
+		Rules: []string{"CODEC(parser)", "SIBLING(gotoState)", "DTX(lr0-shift)", "ENTRY", "GUARD(markerfree)", "CODEC(optimize)", "GUARD(usedBase)", "GUARD(dedupe)", "GUARD(entry)", "FIELDCOV(minimize)", "MUSTPASS(compile-order)", "MUSTPASS(nonassoc-rewrite)", "FRESH(lookahead)", "RESET(histogram)", "PERITEM(flag)"},
 		Run: func(c *Ctx) {
 			ruleTABLEIDX(c)
 			ruleGOTOSIBLING(c)
@@ -258,6 +259,9 @@ func init() {
 			ruleMINIMIZE(c)
 			ruleCOMPILEORDER(c)
 			rulePRECPLUMBING(c)
+			ruleFRESH(c)
+			ruleRESET(c, "lalr")
+			rulePERITEM(c, "compiler", "syntax", "lalr", "grammar")
 		},
 	})
 	register(&Property{
